@@ -69,7 +69,8 @@ LLC::LLC(const uint8_t* buffer, uint32_t total_sz) {
 		// TODO: Create information fields if corresponding.
 	}
 	else {
-		type((Format)(*stream.pointer() & 0x03));
+		// Information frames only have the lowest bit cleared (x0), supervisory ones are 01
+		type((*stream.pointer() & 0x01) ? LLC::SUPERVISORY : LLC::INFORMATION);
 		control_field_length_ = 2;
 		stream.read(control_field.info);
 	}
